@@ -273,6 +273,7 @@ class Translator:
         L = []
         L.append("int main(void) {")
         L.append("  vp_cur = 0;")
+        if s.opts.get('hb'): L.append("  vp_hb_init();")
         if q.get('setup'): L.append(f"  {G.fname('@' + q['setup'])}();")
         L.append("  __CPROVER_assume(!vp_exc.pending);")
         for fn in q.get('seq', []):
@@ -280,6 +281,7 @@ class Translator:
             L.append('  VP_CHECK(!vp_exc.pending, "uncaught exception leaves a sequential entry point");')
         for t in range(NT):
             L.append(f"  vp_spur[{t + 1}] = {spur};")
+        if s.opts.get('hb'): L.append("  vp_hb_fork();")
         def ctx(t, budget_expr):
             tn = threads[t][0]
             return (f"  if (!{tn}_done) {{ vp_cur = {t + 1}; vp_blk_kind[{t + 1}] = VP_B_NONE; {tn}_budget = {budget_expr}; thr_{tn}(); }}")
@@ -297,13 +299,13 @@ class Translator:
                 L.append(f'  VP_CHECK({tn}_done, "solo run: thread {tn} cannot finish although it is the only one scheduled (it waits for a suspended thread)");')
         L.append("  vp_cur = 0;")
         L.append(f"  int vp_all_done = ({alld});")
+        if s.opts.get('hb'): L.append("  if (vp_all_done) vp_hb_joinall();")
         if NT:
             can = ' || '.join(f"(!{tn}_done && vp_enabled({t + 1}))" for t, (tn, _) in enumerate(threads))
             if not s.opts.get('no_deadlock_check'):
                 L.append(f'  VP_CHECK(vp_all_done || ({can}), "deadlock: unfinished threads exist and none of them can move");')
         if q.get('final'):
             L.append(f"  if (vp_all_done) {{ {G.fname('@' + q['final'])}(); }}")
-        L.append('  VP_CHECK(vp_nd_acc != 0x5a17c3e1u || vp_nd_last != 0x7e57, "bookkeeping (keeps nondeterministic draws in the trace)");')
         L.append("#ifdef VP_WITNESS")
         cov = q.get('cover', 0)
         L.append("#ifdef VP_MUST_COVER")
@@ -311,6 +313,10 @@ class Translator:
         L.append("#else")
         L.append(f'  __CPROVER_assert(!(vp_all_done && (vp_covered & {cov}u) == {cov}u), "witness: all threads can finish inside the bound (must FAIL)");')
         L.append("#endif")
+        L.append("#endif")
+        L.append("#ifdef VP_NATIVE")
+        L.append("  vp_native_dump(vp_ghost, VP_NG, vp_covered);")
+        for (tn, _) in threads: L.append(f'  printf("DONE {tn} %d\\n", {tn}_done);')
         L.append("#endif")
         L.append("  return 0;")
         L.append("}")
